@@ -6,6 +6,7 @@ import (
 	"sort"
 	"sync/atomic"
 	"testing"
+	"time"
 
 	"github.com/lindb/common/pkg/logger"
 	"pgregory.net/rapid"
@@ -24,7 +25,11 @@ var engineDBSeq atomic.Int64
 
 // TestEngineFamilies: engine level. Shard.GetOrCrateDataFamily(t) returns a family whose time
 // range contains t (and is the range the calculator gives), and Shard.GetDataFamilies(range)
-// returns exactly the existing families whose range overlaps the requested range.
+// returns exactly the existing families whose time range intersects the INCLUSIVE requested range
+// (lindb query ranges include the slot at End). Written timestamps and the ends of the ranges are
+// biased to family boundaries taken from the calendar: first / last millisecond of an existing or
+// neighbouring family (also the first family of a segment), one ms and one slot around them,
+// interval-truncated ends (slot 0 of a family) and single-millisecond ranges.
 func TestEngineFamilies(t *testing.T) {
 	rapid.Check(t, func(t *rapid.T) {
 		typ := genIntervalType(t)
@@ -71,6 +76,13 @@ func TestEngineFamilies(t *testing.T) {
 		var stamps []int64
 		for i := 0; i < nTs; i++ {
 			ts := anchor + rapid.Int64Range(-3, 3).Draw(t, "famOffset")*unit + rapid.Int64Range(0, unit-1).Draw(t, "inFam")
+			// a third of the written timestamps are the first / last millisecond of their family
+			switch rapid.IntRange(0, 5).Draw(t, "stampAt") {
+			case 0:
+				ts, _ = refFamily(typ, ts)
+			case 1:
+				_, ts = refFamily(typ, ts)
+			}
 			f, err := shard.GetOrCrateDataFamily(ts)
 			if err != nil {
 				t.Fatalf("GetOrCrateDataFamily(%d): %v", ts, err)
@@ -85,11 +97,52 @@ func TestEngineFamilies(t *testing.T) {
 			existing[tr.Start] = fam{tr.Start, tr.End}
 			stamps = append(stamps, ts)
 		}
-		nQ := rapid.IntRange(1, 4).Draw(t, "nRanges")
+		nQ := rapid.IntRange(1, 6).Draw(t, "nRanges")
 		spanned := false
+		classSet := map[string]bool{"type=" + typ.String(): true}
+		// genEndpoint draws one end of a query range. Kind 0 is anywhere in a neighbouring family;
+		// kind 1 is truncated to the storage interval the way the planner aligns ranges (so it can
+		// fall on slot 0 of a family); kind 2 sits on or next to a family boundary: first ms,
+		// last ms, one ms and one slot around it, of the family of a written timestamp or of a
+		// neighbouring (possibly not existing, possibly other-segment) family. The boundaries come
+		// from the calendar (refFamily), not from the calculator under test.
+		genEndpoint := func(label string) int64 {
+			base := anchor + rapid.Int64Range(-4, 3).Draw(t, label+"Fam")*unit + rapid.Int64Range(0, unit-1).Draw(t, label+"In")
+			switch rapid.IntRange(0, 3).Draw(t, label+"Kind") {
+			case 0:
+				return base
+			case 1:
+				return base - base%iv.Int64()
+			default:
+				if rapid.Bool().Draw(t, label+"OfStamp") {
+					base = stamps[rapid.IntRange(0, len(stamps)-1).Draw(t, label+"Stamp")]
+					// the family itself or the one before / after it
+					s, e := refFamily(typ, base)
+					switch rapid.IntRange(0, 3).Draw(t, label+"Nb") {
+					case 0:
+						base = s - 1
+					case 1:
+						base = e + 1
+					}
+				}
+				s, e := refFamily(typ, base)
+				return rapid.SampledFrom([]int64{s, s, s - 1, s + 1, e, e, e - 1, e + 1, s + iv.Int64(), s - iv.Int64(), e + 1 - iv.Int64()}).Draw(t, label+"At")
+			}
+		}
 		for q := 0; q < nQ; q++ {
-			a := anchor + rapid.Int64Range(-4, 3).Draw(t, "qStartFam")*unit + rapid.Int64Range(0, unit-1).Draw(t, "qStartIn")
-			b := a + rapid.Int64Range(0, 5*unit).Draw(t, "qSpan")
+			a := genEndpoint("qStart")
+			var b int64
+			switch rapid.IntRange(0, 5).Draw(t, "qEndKind") {
+			case 0: // a single millisecond (one slot after planner truncation)
+				b = a
+			case 1:
+				b = a + rapid.Int64Range(0, 5*unit).Draw(t, "qSpan")
+			default:
+				b = genEndpoint("qEnd")
+			}
+			if b < a {
+				a, b = b, a
+			}
 			var want []int64
 			for s, f := range existing {
 				if f.start <= b && f.end >= a {
@@ -103,14 +156,57 @@ func TestEngineFamilies(t *testing.T) {
 			}
 			sort.Slice(got, func(i, j int) bool { return got[i] < got[j] })
 			if fmt.Sprint(got) != fmt.Sprint(want) {
-				t.Fatalf("interval %s: GetDataFamilies([%d,%d]) returns families starting at %v, the existing families overlapping the range start at %v (existing: %v, written timestamps %v)",
-					iv, a, b, got, want, existing, stamps)
+				t.Fatalf("interval %s: GetDataFamilies([%d,%d] = %s .. %s) returns families starting at %v, the existing families whose time range intersects the inclusive range start at %v (existing: %v, written timestamps %v)",
+					iv, a, b, fmtMs(a), fmtMs(b), got, want, existing, stamps)
 			}
 			if len(want) >= 2 {
 				spanned = true
 			}
+			// evidence: where do the ends of the range lie relative to the families
+			as, ae := refFamily(typ, a)
+			bs, be := refFamily(typ, b)
+			_, aExists := existing[as]
+			_, bExists := existing[bs]
+			if a == b {
+				classSet["range=single-ms"] = true
+			}
+			if b == bs {
+				classSet["range-end=family-start"] = true
+				if bExists {
+					classSet["range-end=start-of-existing-family"] = true
+				}
+				if refSegment(typ, b) == b {
+					classSet["range-end=segment-start"] = true
+				}
+			}
+			if b == be {
+				classSet["range-end=family-end"] = true
+			}
+			if a == ae {
+				classSet["range-start=family-end"] = true
+				if aExists {
+					classSet["range-start=end-of-existing-family"] = true
+				}
+			}
+			if a == as {
+				classSet["range-start=family-start"] = true
+			}
+			if b%iv.Int64() == 0 && b-bs < iv.Int64() {
+				classSet["range-end-in-slot0"] = true
+			}
+			if refSegment(typ, a) != refSegment(typ, b) {
+				classSet["range-crosses-segment"] = true
+			}
+			if len(want) == 0 {
+				classSet["range-matches-no-family"] = true
+			}
 		}
-		ev.Case("TestEngineFamilies", fmt.Sprintf("%d/%v/%d", iv, stamps, anchor), spanned, []string{"type=" + typ.String()},
+		var classes []string
+		for c := range classSet {
+			classes = append(classes, c)
+		}
+		sort.Strings(classes)
+		ev.Case("TestEngineFamilies", fmt.Sprintf("%d/%v/%d", iv, stamps, anchor), spanned, classes,
 			map[string]any{"interval": iv.String(), "timestamps": stamps, "families": len(existing)})
 	})
 }
@@ -143,3 +239,39 @@ func TestRegression_RangeStartingInPreviousMonth(t *testing.T) {
 		t.Fatalf("C13/range-starting-in-previous-segment: GetDataFamilies(2014-12-31 .. 2015-01-01 01:00) returns %d families, want the family of 2015-01-01", len(got))
 	}
 }
+
+// ---- calendar reference (independent of the interval calculators) ------------------------------
+
+// refFamily is the family [start,end] of a timestamp by the calendar: one family per hour for
+// the day type, per day for the month type, per month for the year type.
+func refFamily(typ timeutil.IntervalType, ts int64) (start, end int64) {
+	tm := time.UnixMilli(ts).UTC()
+	var s, e time.Time
+	switch typ {
+	case timeutil.Day:
+		s = time.Date(tm.Year(), tm.Month(), tm.Day(), tm.Hour(), 0, 0, 0, time.UTC)
+		e = s.Add(time.Hour)
+	case timeutil.Month:
+		s = time.Date(tm.Year(), tm.Month(), tm.Day(), 0, 0, 0, 0, time.UTC)
+		e = s.AddDate(0, 0, 1)
+	default:
+		s = time.Date(tm.Year(), tm.Month(), 1, 0, 0, 0, 0, time.UTC)
+		e = s.AddDate(0, 1, 0)
+	}
+	return s.UnixMilli(), e.UnixMilli() - 1
+}
+
+// refSegment is the start of the segment of a timestamp: day / month / year.
+func refSegment(typ timeutil.IntervalType, ts int64) int64 {
+	tm := time.UnixMilli(ts).UTC()
+	switch typ {
+	case timeutil.Day:
+		return time.Date(tm.Year(), tm.Month(), tm.Day(), 0, 0, 0, 0, time.UTC).UnixMilli()
+	case timeutil.Month:
+		return time.Date(tm.Year(), tm.Month(), 1, 0, 0, 0, 0, time.UTC).UnixMilli()
+	default:
+		return time.Date(tm.Year(), 1, 1, 0, 0, 0, 0, time.UTC).UnixMilli()
+	}
+}
+
+func fmtMs(v int64) string { return time.UnixMilli(v).UTC().Format("2006-01-02T15:04:05.000Z") }
